@@ -773,7 +773,7 @@ func (env *SpecEnv) evalIndex(e *Expr) (Val, error) {
 		switch u := a.GoT.Underlying().(type) {
 		case *types.Slice:
 			h := env.heapGet(x.elemKey(u.Elem()), SArr(SInt, SArr(SInt, x.sortOf(u.Elem()))))
-			return tv(Select(Select(h, slArr(a.T)), IAdd(slOff(a.T), i.T)), u.Elem()), nil
+			return tv(x.eng.Elem(Select(h, slArr(a.T)), slOff(a.T), i.T), u.Elem()), nil
 		case *types.Array:
 			return tv(Select(a.T, i.T), u.Elem()), nil
 		case *types.Map:
